@@ -423,3 +423,27 @@ PROPS["C18"] = {
                   "dial function with the real dialer; which of the two family dials wins is network behaviour and out of scope",
     "assumptions": ["golang.org/x/net/dns/dnsmessage and the pure-Go resolver of net answer from the harness's in-memory server"],
 }
+
+PROPS["C16"] = {
+    "title": "No input makes a parser crash or hang",
+    "units": [{"name": "lib", "pkg": "lib", "run": "^TestC16"},
+              {"name": "flags", "pkg": "main", "run": "^TestC16", "shards_quick": 2, "shards_thorough": 8},
+              {"name": "resolver", "pkg": "resolver", "run": "^TestC16", "shards_quick": 1, "shards_thorough": 4},
+              {"name": "nativefuzz", "pkg": "fuzz", "run": "", "thorough_only": True, "shards_thorough": 1, "timeout_thorough": 1500}],
+    "rule": "Three layers. (a) rapid structured mutation: valid documents from the result/target/bucket/flag generators "
+            "receive 1..8 drawn mutations (bit flip, byte insert, run delete, block duplication up to 50x, truncation, "
+            "splice of two documents, number -> boundary value, invalid UTF-8, lines of 4 KiB..200 KB, byte swap, CRLF, "
+            "NUL runs), plus pure random bytes and unmodified documents; (b) replay of the committed corpus "
+            "/verif/corpus/C16 (repository test literals + everything earlier campaigns saved); (c) thorough tier: Go "
+            "native coverage-guided fuzzing of the decoders, target parsers and bucket parser from an external module "
+            "(16 workers, bounded by -fuzztime). '@file' lines are confined to a sandbox directory. Non-trivial = an "
+            "input on which a parser returned >= 1 record/target and later an error; distinct = (parser, input).",
+    "explanation": "Oracle inside every target: no panic; progress: successful calls <= len(input)+1 (decoders) / "
+                   "lines+1 (target parsers), so succeeding without consuming input is caught without a clock; a 20 s "
+                   "per-input watchdog re-tried once in isolation; TotalAlloc of the drain <= 64 MiB + 1 KiB per input byte.",
+    "technique": "structured-mutation property testing (rapid) + corpus replay + coverage-guided native fuzzing (go test -fuzz) with the oracle inside the target",
+    "level_text": "generated-input search (mutational and coverage-guided); 'never' is not established, the evidence "
+                  "reports executions, corpus size and new-coverage counts",
+    "level_note": "native fuzz campaigns are not reproducible from a seed; a crasher is saved as a replay file and joins the corpus",
+    "assumptions": ["body-file references are rewritten into a sandbox directory so the environment is not part of the input"],
+}
